@@ -555,3 +555,13 @@ Proof. split; reflexivity. Qed.
 Lemma not_template_vars_lemma pv st e x :
   eval e (with_prov pv st) = eval e st /\ lookup x (with_prov pv st) = lookup x st.
 Proof. split; [apply eval_with_prov | apply lookup_with_prov]. Qed.
+
+(* what a fill body can inject is exactly what is visible at the slot where it is rendered: the providers recorded at the
+   component tag (isolated mode) never win over, nor add to, the stack at the slot *)
+Lemma fill_providers_are_slot_stack_lemma st stk cn fills iso k c aliases key :
+  scope_inv st stk -> cur st = Some (Inst cn fills iso) -> slookup k fills = Some c ->
+  slookup key (prov (fill_state iso st aliases c)) = slookup key stk.
+Proof.
+  intros Hi Hc Hl. destruct (inv_fill st stk cn fills iso k c aliases Hi Hc Hl) as [[extra [Hp Hs]] _].
+  rewrite Hp. apply slookup_stack. exact Hs.
+Qed.
